@@ -12,6 +12,8 @@
      pow2 qc    = the queue capacity is 2^k, k < 64 (what reserve_and_clear's bit_ceil produces);
      err s      = some callback touched a queue cell it does not own / in the wrong state.
    PART B (sequential, calls of different threads in any order): Counting(Batch(upstream)).
+   PART C (calls atomic, any call sequence, any number of pools in both modes): handles (unique_ptr<T, Deleter>) and
+   the routing of push / Deleter between pools.
 
    Not mechanised (stated in META["note"]): the ring-slot/version/futex protocol of ConcurrentBoundedQueue below the
    ticket contract (C01), termination under fairness (liveness appears as enabledness theorems:
@@ -157,6 +159,46 @@ Theorem c17_batch_dtor_returns_buffers : forall ops b n, 1 <= b -> (Z.of_nat b <
 Proof. exact pb_dtor_run. Qed.
 Print Assumptions c17_batch_dtor_returns_buffers.
 
+(* ---- PART C: handles / Deleter routing between several pools (calls atomic, any call sequence) ---- *)
+(* what the regenerated body of push(unique_ptr<T, Deleter>&&) does: it releases the object into THE POOL push WAS
+   CALLED ON - the same effect as the unique_ptr<T> overload, whatever pool (or none) the handle's Deleter is bound to *)
+Theorem c17_push_handle_routes_into_this_pool : forall s j, cstep s (CPushH j) = cstep s (CPushU j).
+Proof. exact pc_push_handle_routes_here. Qed.
+Print Assumptions c17_push_handle_routes_into_this_pool.
+
+Theorem c17_push_handle_spec : forall s j p h hs, nth_error (cpools s) j = Some p -> hands s = h :: hs ->
+  let drop := negb (cstrict p) && pool_drop (zn (ccap p)) (zn (length (cq p))) in
+  let s' := cstep s (CPushH j) in
+  nth_error (cpools s') j = Some {| cstrict := cstrict p; ccap := ccap p; cq := if drop then cq p else cq p ++ [hobj h];
+                                    crec := crec p ++ [hobj h] |} /\
+  (forall i, i <> j -> nth_error (cpools s') i = nth_error (cpools s) i) /\
+  hands s' = hs /\ cdestroyed s' = (if drop then cdestroyed s ++ [hobj h] else cdestroyed s) /\ cleaked s' = cleaked s /\
+  chome_of s' (hobj h) = Some j.
+Proof. exact pc_push_handle_spec. Qed.
+Print Assumptions c17_push_handle_spec.
+
+(* conservation over all pools and handles: every object ever created is in exactly one free list, in exactly one
+   handle, destroyed (once) or lost - and it can only be lost by letting a handle bound to NO pool die *)
+Theorem c17_pools_conservation : forall ops modes cap, cops_ok (length modes) ops ->
+  let s := crun (cinit modes cap) ops in
+  Permutation (cq_all s ++ map hobj (hands s) ++ cdestroyed s ++ cleaked s) (seq 0 (cfresh s)).
+Proof. exact (fun ops modes cap H => pc_conservation _ (pc_inv ops modes cap H)). Qed.
+Print Assumptions c17_pools_conservation.
+Theorem c17_lost_only_by_unbound_handle_dying : forall s o, cleaked (cstep s o) = cleaked s \/
+  (o = CDie /\ exists h hs, hands s = h :: hs /\ hbind h = None /\ cleaked (cstep s o) = cleaked s ++ [hobj h]).
+Proof. exact pc_leak_only_by_unbound_die. Qed.
+Print Assumptions c17_lost_only_by_unbound_handle_dying.
+
+(* per pool: a live object whose home is pool j (created by j or last pushed into j) is in j's free list or in an
+   outstanding handle bound to j *)
+Theorem c17_pool_owns_its_objects : forall ops modes cap o j, cops_ok (length modes) ops ->
+  let s := crun (cinit modes cap) ops in
+  chome_of s o = Some j -> 1 <= cnt (cq_all s) o + cnt (map hobj (hands s)) o ->
+  (exists p, nth_error (cpools s) j = Some p /\ In o (cq p)) \/
+  (exists h, In h (hands s) /\ hobj h = o /\ (hbind h = Some j \/ hbind h = None)).
+Proof. exact (fun ops modes cap o j H => pc_pool_owns _ o j (pc_inv ops modes cap H)). Qed.
+Print Assumptions c17_pool_owns_its_objects.
+
 (* ---- non-vacuity ---- *)
 Example c17_reach_example : exists s, Reach 2 0 ex_progs s /\ quiescent s = true /\ all_done s = true /\
   tape_pages (tape s) <> [] /\ returned s <> [] /\ all_held s <> [].
@@ -172,3 +214,7 @@ Proof. exact ex_stuck. Qed.
 Example c17_batch_example : BInv (brun (binit 2 2) [BAlloc 0; BAllocN 1 3; BFree 0; BAlloc 0]) /\
   boutcome (brun (binit 2 2) [BAlloc 0; BAllocN 1 3; BFree 0; BAlloc 0]) = ([[1]; [2; 3; 4]], [[]; [5]], ([0], 6, 4%Z)).
 Proof. exact ex_batch. Qed.
+Example c17_route_example : let s := crun (cinit [true; true] 2) [CNewH; CPushH 0; CPop 0; CPushH 1; CTry 0; CTry 1] in
+  map cq (cpools s) = [[]; []] /\ map hobj (hands s) = [0] /\ map hbind (hands s) = [Some 1] /\ cleaked s = [] /\
+  clog s = [CNew 0; CPushed false; CGot 0; CPushed false; CNone; CGot 0].
+Proof. exact ex_route. Qed.
